@@ -87,7 +87,8 @@ pub enum MItem {
 #[derive(Clone, Debug)]
 pub struct Method {
     pub name: String,
-    pub line: u32,
+    /// `None`: the element has no `line` attribute (report.dtd: #IMPLIED)
+    pub line: Option<u32>,
     pub shell: Shell,
     pub body: Vec<MItem>,
 }
@@ -389,7 +390,60 @@ pub fn packages_of<'a>(items: &'a [TItem], out: &mut Vec<&'a Package>) {
     }
 }
 
-/// What the property text says the report means (abstract content only).
+/// every (file record, Class#name) with the (line, executed) of each <method> that maps to it, in
+/// document order, package by package: the raw material of the property clause "every <method>
+/// of every <class> yields a function named Class#method … starting at the method's line
+/// attribute and executed iff its METHOD counter has covered > 0"
+pub fn methods_by_name(doc: &Doc) -> Vec<((usize, String, String), Vec<(Option<u32>, bool)>)> {
+    let mut pkgs = vec![];
+    packages_of(&doc.top, &mut pkgs);
+    let mut out: Vec<((usize, String, String), Vec<(Option<u32>, bool)>)> = vec![];
+    for (pi, p) in pkgs.iter().enumerate() {
+        for it in &p.body {
+            if let PItem::Class(c) = it {
+                let short = c.fq.rsplit('/').next().unwrap().to_string();
+                let top = short.split('$').next().unwrap().to_string();
+                let file = c.sfn.clone().unwrap_or(format!("{}.java", top));
+                for ci in &c.body {
+                    if let CItem::Method(m) = ci {
+                        let mut executed = false;
+                        for mi in &m.body {
+                            if let MItem::Counter(k) = mi {
+                                if k.ty == "METHOD" {
+                                    executed = k.covered > 0;
+                                }
+                            }
+                        }
+                        let key = (pi, file.clone(), format!("{}#{}", short, m.name));
+                        match out.iter_mut().find(|(k, _)| *k == key) {
+                            Some((_, v)) => v.push((m.line, executed)),
+                            None => out.push((key, vec![(m.line, executed)])),
+                        }
+                    }
+                }
+            }
+        }
+    }
+    out
+}
+
+/// some `<method>` has no `line` attribute
+pub fn has_lineless_method(doc: &Doc) -> bool {
+    methods_by_name(doc).iter().any(|(_, v)| v.iter().any(|(l, _)| l.is_none()))
+}
+
+/// two `<method>` elements yield the same function name on the same record and disagree on
+/// (line, executed): no single function can be what the property says of both
+pub fn overload_conflict(doc: &Doc) -> Option<String> {
+    methods_by_name(doc)
+        .into_iter()
+        .find(|(_, v)| v.iter().any(|x| *x != v[0]))
+        .map(|((_, file, name), v)| format!("{} on {}: {:?}", name, file, v))
+}
+
+/// What the report means when every function name is unique on its record and every method has a
+/// `line` (the abstract content only); for a repeated name the LAST method is kept, which is what
+/// the parser does (see `overload_conflict` for the property's side of that case).
 pub fn sem(doc: &Doc) -> Vec<(String, CovResult)> {
     let mut pkgs = vec![];
     packages_of(&doc.top, &mut pkgs);
@@ -423,7 +477,7 @@ pub fn sem(doc: &Doc) -> Vec<(String, CovResult)> {
                             }
                             r.functions.insert(
                                 format!("{}#{}", short, m.name),
-                                Function { start: m.line, executed },
+                                Function { start: m.line.unwrap_or(0), executed },
                             );
                         }
                     }
